@@ -101,7 +101,19 @@ def c13(ctx):
     ctx.gotest("refserver", "^TestVerifC13", race=False, timeout=3000)
 
 
+def c19(ctx):
+    ctx.gotest("cc", "^TestVerifC19", race=False, timeout=3000)
+    ctx.gotest("refserver", "^TestVerifC19", race=False, timeout=1800)
+    if "c19" in PKG_HAS.get("refclient", ()):
+        ctx.gotest("refclient", "^TestVerifC19", race=False, timeout=1800)
+
+
 SPECS = {
+    "C19": {"fn": c19, "level": "exploration",
+            "technique": "runtime monitoring: invariant oracle on the real expandRequestData (size == limit+delta, only the padding field differs, else error) over enumerated offsets around every varint boundary; crafted third-party peers exchange messages of exact serialized size limit-1/limit/limit+1 with the real reference server and client",
+            "text": "expandRequestData is run for all five message types, several contents and every offset in windows around zero and around each length-varint growth point; the result must be exactly limit+delta bytes with nothing but request_data changed, or an error - never a panic. Sharpness is observed on the wire: messages of exactly limit-1, limit and limit+1 serialized bytes under every protocol and compression against the real reference server (and reference client for responses).",
+            "note": "connect-go compares the compressed envelope with the limit before decompressing: messages whose compressed form exceeds the limit while the uncompressed size does not are rejected by the library (known finding, third-party).",
+            "assumptions": ["proto.Size is the serialized size", "connect-go (no limit configured) as crafted peer"]},
     "C13": {"fn": c13, "level": "exploration",
             "technique": "runtime monitoring: the reference client's real wire-capture + trace + examineWireDetails chain observed on synthetic and real responses; spec-written independent encoders and the reference server's own encoders supply well-formed inputs, one-malformation-at-a-time generators and seeded structure-aware fuzzing supply bad ones",
             "text": "Thousands of errors (all codes, hostile messages, details, metadata) are rendered as Connect error JSON, Connect end-stream, gRPC-Web trailer blocks and gRPC trailers by an independent spec encoder and by the reference server's own encoder functions, and pushed through the real capture/trace/examine chain: no feedback is allowed. Each malformation class the checks name is injected alone and must produce feedback. 10^4-10^5 mutated/random inputs must not panic.",
